@@ -334,3 +334,99 @@ def pool_map(fn, jobs, workers=16):
         return [fn(j) for j in jobs]
     with ProcessPoolExecutor(max_workers=workers) as ex:
         return list(ex.map(fn, jobs, chunksize=4))
+
+
+# ---- C06: set(other ABI value) ------------------------------------------------------------------------------------
+COPY_TYPES = ["bool", "byte", "uint8", "uint16", "uint32", "uint64", "string", "byte[]", "address", "byte[32]", "byte[4]", "uint8[]", "uint8[4]", "(uint8,uint8)"]
+
+
+def copy_case(job):
+    """dst.set(src) for two ABI values of (possibly) different types, the source holding a boundary value: the copy is rejected when the
+    expression is built, or the program fails at run time, or dst.encode() is the reference encoding - under the DESTINATION type - of
+    the same logical value.  (A value that does not fit the destination type must not be truncated silently.)"""
+    src_s, dst_s, seed, version, in_sub = job
+    from vf.core import use_repo
+    use_repo()
+    import pyteal as pt
+    from pyteal import abi
+    from algosdk import abi as sabi
+    out = {"job": list(job), "problems": [], "ran": 0, "accepted": False}
+    r = random.Random(seed)
+    try:
+        st, dt = sabi.ABIType.from_string(src_s), sabi.ABIType.from_string(dst_s)
+        sts, dts = abi.type_spec_from_algosdk(st), abi.type_spec_from_algosdk(dt)
+        for rep in range(3):
+            v = gen_value(st, r)
+            if isinstance(st, sabi.UintType) and rep == 0:
+                v = 2 ** st.bit_size - 1          # the largest source value
+
+            def body():
+                stmts = []
+                src = build_set(pt, sts, st, v, stmts)
+                dst = dts.new_instance()
+                return pt.Seq(*stmts, dst.set(src), pt.Log(dst.encode()))
+            try:
+                teal = pt.compileTeal(wrap(pt, body, in_sub), pt.Mode.Application, version=version)
+            except (pt.TealInputError, pt.TealTypeError, pt.TealCompileError):
+                return out          # rejected when built: fine for every pair
+            out["accepted"] = True
+            res = run_teal(teal)
+            out["ran"] += 1
+            if res.verdict == "fail" or resource_limited(res):
+                continue            # refused at run time
+            # the same logical value under the destination type
+            try:
+                cv = convert_value(st, dt, v)
+                want = (len(cv.raw).to_bytes(2, "big") + cv.raw) if isinstance(cv, RawString) else sdk_encode(dt, cv)
+            except Exception:
+                want = None          # the value has no encoding under the destination type
+            if res.verdict != "approve" or want is None or res.logs != [want]:
+                out["problems"].append(f"{dst_s}.set({src_s} holding {v!r:.60}) accepted: logged {[l.hex()[:60] for l in res.logs]} ({res.verdict}), "
+                                       f"reference {want.hex()[:60] if want is not None else 'has no encoding of this value'}")
+                out["teal"] = teal
+                break
+    except Exception as e:
+        from spec import avm
+        if isinstance(e, avm.Unsupported) or too_many_slots(e):
+            out["skipped"] = str(e)
+        else:
+            out["problems"].append(f"exception {type(e).__name__}: {str(e)[:200]}")
+    return out
+
+
+class RawString:
+    def __init__(self, raw):
+        self.raw = raw
+
+
+def convert_value(st, dt, v):
+    """the logical value v of source type st as a Python value of destination type dt (raises if there is none)"""
+    from algosdk import abi as sabi
+    if str(st) == str(dt):
+        return _sdk_val(dt, v)
+    num = (sabi.UintType, sabi.ByteType)
+    if isinstance(st, num) and isinstance(dt, num):
+        return int(v)
+    byteish = lambda t: isinstance(t, (sabi.StringType, sabi.AddressType)) or (isinstance(t, (sabi.ArrayStaticType, sabi.ArrayDynamicType)) and isinstance(t.child_type, (sabi.ByteType, sabi.UintType)) and
+                                                                                  (isinstance(t.child_type, sabi.ByteType) or t.child_type.bit_size == 8))
+    if byteish(st) and byteish(dt):
+        raw = v.encode() if isinstance(v, str) else bytes(v)
+        if isinstance(dt, sabi.StringType):
+            return RawString(raw)        # ARC-4 `string` has the layout of byte[]: any bytes have an encoding (UTF-8 is an assumption about them)
+        if isinstance(dt, sabi.AddressType):
+            if len(raw) != 32:
+                raise ValueError("not 32 bytes")
+            return raw
+        return list(raw)
+    raise ValueError("no conversion")
+
+
+def copy_jobs(tier, seed):
+    jobs = []
+    k = 0
+    for a in COPY_TYPES:
+        for b in COPY_TYPES:
+            for in_sub, version in ((False, 6), (True, 9)) if tier == "quick" else ((False, 5), (False, 8), (True, 8), (True, 10)):
+                jobs.append((a, b, seed * 131 + k, version, in_sub))
+                k += 1
+    return jobs
